@@ -75,7 +75,12 @@ func (o *output) closeFile(tf *traceFile) {
 	tf.f.Close()
 	tf.f = nil
 	tf.Events = tf.rec.Events
-	tf.Counters = tf.rec.C
+	tf.Counters = beaconrec.Counters{}
+	for k, v := range tf.rec.C {
+		if !strings.HasPrefix(k, "_") { // transient marks
+			tf.Counters[k] = v
+		}
+	}
 	tf.Histories = tf.rec.C["histories"]
 }
 
@@ -89,6 +94,7 @@ func main() {
 	tier := flag.String("tier", "quick", "quick | thorough")
 	seed := flag.Int64("seed", 1, "seed of every random choice")
 	family := flag.String("family", "idle,chain", "scenario families to run")
+	flag.StringVar(&scriptsFile, "scripts", "", "family tlc: file with one TLC-generated scenario script (JSON) per line")
 	only := flag.String("only", "", "run only the scenarios whose name contains this string")
 	maxEvents := flag.Int("max-events", 400, "split trace files at this many events")
 	shard := flag.String("shard", "0/1", "i/n: run only the scenarios whose position is i modulo n")
@@ -113,6 +119,8 @@ func main() {
 			scens = append(scens, idleScenarios(*tier, *seed)...)
 		case "chain":
 			scens = append(scens, chainScenarios(*tier, *seed)...)
+		case "tlc":
+			scens = append(scens, tlcScenarios(*tier, *seed)...)
 		case "":
 		default:
 			fatal(fmt.Errorf("unknown family %q", fam))
